@@ -14,9 +14,13 @@ type accumulator struct {
 	add *ssa.BinOp
 	phi *ssa.Phi
 	y   ssa.Value
+	// members: the loop-header phi, the sum, and merge phis in between (a `continue` in an indexed loop
+	// merges the unchanged and the updated value in the post block before the back edge)
+	members map[ssa.Value]bool
 }
 
-// accumulators finds integer accumulators initialised to 0: phi(0 | phi + y | ...).
+// accumulators finds integer accumulators initialised to 0: H = phi(0 | … ), sum = H + y, and the sum flows
+// back into H directly or through merge phis whose other inputs are H itself.
 func accumulators(f *ssa.Function) []accumulator {
 	var out []accumulator
 	for _, b := range f.Blocks {
@@ -30,17 +34,45 @@ func accumulators(f *ssa.Function) []accumulator {
 				if !ok {
 					continue
 				}
-				zero, back := false, false
+				zero := false
+				members := map[ssa.Value]bool{phi: true, add: true}
+				back := false
+				var flows func(e ssa.Value, depth int) bool // e carries only H or sum
+				flows = func(e ssa.Value, depth int) bool {
+					if e == ssa.Value(add) {
+						back = true
+						return true
+					}
+					if e == ssa.Value(phi) {
+						return true
+					}
+					if m, isPhi := e.(*ssa.Phi); isPhi && depth < 4 {
+						if members[m] {
+							return true
+						}
+						members[m] = true
+						for _, e2 := range m.Edges {
+							if !flows(e2, depth+1) {
+								delete(members, m)
+								return false
+							}
+						}
+						return true
+					}
+					return false
+				}
+				okShape := true
 				for _, e := range phi.Edges {
 					if v, ok := constInt(e); ok && v == 0 {
 						zero = true
+						continue
 					}
-					if e == ssa.Value(add) {
-						back = true
+					if !flows(e, 0) {
+						okShape = false
 					}
 				}
-				if zero && back {
-					out = append(out, accumulator{add, phi, pair[1]})
+				if zero && back && okShape {
+					out = append(out, accumulator{add, phi, pair[1], members})
 				}
 			}
 		}
@@ -48,17 +80,21 @@ func accumulators(f *ssa.Function) []accumulator {
 	return out
 }
 
-// derivedFrom: v is the accumulator phi or its updated value.
+// derivedFrom: v is the accumulator phi, its updated value or a merge of the two.
 func (a accumulator) derived(v ssa.Value) bool {
 	v = stripConv(v)
-	return v == ssa.Value(a.phi) || v == ssa.Value(a.add)
+	return a.members[v]
 }
+
+// fwdIdx matches the rendering of the index of a forward iteration from 0: the implicit index of a
+// `for i := range xs` loop or the variable of `for i := 0; i < n; i++`.
+const fwdIdx = `(?:\(phi\(\(phi:rangeindex \+ 1\)\|-1\) \+ 1\)|phi\(\(phi:\w+ \+ 1\)\|0\))`
 
 var commitVerifiers = []string{"ValidatorSet.VerifyCommit", "ValidatorSet.VerifyCommitLight", "ValidatorSet.VerifyCommitLightTrusting"}
 
 func ruleCommitTally(c *Ctx) {
 	w := c.W
-	idx := `\(phi\(\(phi:rangeindex \+ 1\)\|-1\) \+ 1\)`
+	idx := fwdIdx
 	for _, name := range commitVerifiers {
 		f := c.fn("types", name)
 		if f == nil {
